@@ -112,6 +112,20 @@ class Program:
             from . import alpha
 
             self.renamed = alpha.normalise(self)
+        # undo behaviour-preserving restructurings that are new w.r.t. the reference (see sa/derefactor.py)
+        self.derefactored = {}
+        if os.environ.get("VERIF_NO_DEREFACTOR") != "1" and os.environ.get("VERIF_NO_ALPHA") != "1":
+            from . import alpha, derefactor
+
+            ref = alpha.load_reference()
+            self.derefactored = derefactor.normalise(self, ref)
+            if any(self.derefactored.get(k) for k in ("#inlined", "#temps", "#unrolled")):
+                self._by_name = {}
+                for f in self.functions.values():
+                    self._by_name.setdefault(f.name, []).append(f)
+                again = alpha.normalise(self)
+                for q, m in again.items():
+                    self.renamed.setdefault(q, {}).update(m)
 
     def real(self, rel):
         """Absolute path of a repository file, honouring the overlay."""
